@@ -12,7 +12,7 @@ Open Scope N_scope.
    exactly when the library call of its route, with the same --features (and header flag),
    succeeds *)
 Theorem C18_report_iff_lib : forall lib a pre x post,
-  v_schema a = SOk -> todo a = pre ++ x :: post -> reaches lib a pre = true -> usable x = true ->
+  schema_ok (v_schema a) = true -> todo a = pre ++ x :: post -> reaches lib a pre = true -> usable x = true ->
   (In (x, OSucc) (r_reports (validate lib a)) <-> expected lib a x = true).
 Proof. exact report_iff_lib. Qed.
 
@@ -29,13 +29,13 @@ Theorem C18_reports_prefix : forall lib a, exists k,
 Proof. exact reports_prefix. Qed.
 
 (* without --ci a failing or missing document does not mask later ones *)
-Theorem C18_noci_all_reported : forall lib a, v_ci a = false -> v_schema a = SOk ->
+Theorem C18_noci_all_reported : forall lib a, v_ci a = false -> schema_ok (v_schema a) = true ->
   (forall x, In x (todo a) -> step lib a x <> OIoErr) ->
   r_reports (validate lib a) = map (fun x => (x, step lib a x)) (todo a).
 Proof. exact noci_all_reported. Qed.
 
 (* with --ci processing stops at (and reports) the first document that is not successful *)
-Theorem C18_ci_stops_at_first_failure : forall lib a pre x post, v_ci a = true -> v_schema a = SOk ->
+Theorem C18_ci_stops_at_first_failure : forall lib a pre x post, v_ci a = true -> schema_ok (v_schema a) = true ->
   todo a = pre ++ x :: post -> (forall y, In y pre -> step lib a y = OSucc) -> step lib a x <> OSucc ->
   r_reports (validate lib a) = map (fun y => (y, step lib a y)) pre ++ [(x, step lib a x)]
   /\ r_fail (validate lib a) = true.
@@ -46,22 +46,35 @@ Proof. exact ci_stops_at_first_failure. Qed.
    features) rejects it *)
 Theorem C18_ci_exit_iff : forall lib a, v_ci a = true ->
   (r_fail (validate lib a) = true <->
-   v_schema a <> SOk \/ exists x, In x (todo a) /\ (usable x = false \/ expected lib a x = false)).
+   schema_ok (v_schema a) = false \/ exists x, In x (todo a) /\ (usable x = false \/ expected lib a x = false)).
 Proof. exact ci_exit_iff. Qed.
 
 (* the same in terms of the per-document outcomes *)
 Theorem C18_ci_exit_iff_made : forall lib a, v_ci a = true ->
   (r_fail (validate lib a) = true <->
-   v_schema a <> SOk \/ exists x, In x (todo a) /\ step lib a x <> OSucc).
+   schema_ok (v_schema a) = false \/ exists x, In x (todo a) /\ step lib a x <> OSucc).
 Proof. exact ci_exit_iff_made. Qed.
 
 (* without --ci the exit status is non-zero only for an unreadable / non-compiling schema or an
    unreadable document (the `?` operators); failing and missing documents leave it at zero *)
 Theorem C18_noci_exit_iff : forall lib a, v_ci a = false ->
   (r_fail (validate lib a) = true <->
-   In (v_schema a) [SUnreadable; SNoParse; SNoRoot] \/
-   (v_schema a = SOk /\ exists x, In x (todo a) /\ step lib a x = OIoErr)).
+   (schema_ok (v_schema a) = false /\ v_schema a <> SMissing) \/
+   (schema_ok (v_schema a) = true /\ exists x, In x (todo a) /\ step lib a x = OIoErr)).
 Proof. exact noci_exit_iff. Qed.
+
+(* "the schema compiles" ([schema_ok]) is computed by the model from the rule kinds of the parsed
+   schema: it has a root exactly when some type rule has no generic parameters, and the root is the
+   first such rule wherever it stands (after generic rules, after group rules) - the rule the
+   validators themselves start from *)
+Theorem C18_root_is_first_plain_type_rule : forall pre post,
+  (forall k, In k pre -> is_root k = false) ->
+  root_index (pre ++ KType false :: post) = Some (N.of_nat (length pre)).
+Proof. exact root_is_first_plain_type_rule. Qed.
+
+Theorem C18_no_root_iff : forall rs,
+  has_root rs = false <-> (forall k, In k rs -> is_root k = false).
+Proof. exact no_root_iff. Qed.
 
 (* compile-cddl: "<file> is conformant" with exit status zero exactly when the parser accepts *)
 Theorem C18_compile_iff_parse : forall ci f,
@@ -88,26 +101,34 @@ Definition ex_lib (c : call) : bool :=
   end.
 Definition ex_src (i : N) (e u : bool) : src := {| s_id := i; s_exists := e; s_isfile := e; s_utf8 := u |}.
 Definition ex_args (ci : bool) : vargs :=
-  {| v_ci := ci; v_schema := SOk; v_feats := Some [1]; v_hdr := true;
+  {| v_ci := ci; v_schema := SParsed [KType true; KGroup; KType true; KType false; KType false]; v_feats := Some [1]; v_hdr := true;
      v_json := [ex_src 0 true true; ex_src 1 false true; ex_src 2 true true];
      v_cbor := [ex_src 3 true false]; v_csv := [ex_src 4 true true]; v_stdin := Some (ex_src 5 true false) |}.
 
 Example C18_example_noci :
   render (validate ex_lib (ex_args false))
-  = [45;32; 106;48;43;32; 106;49;63;32; 106;50;45;32; 99;48;45;32; 115;48;43;32; 105;48;43;32; 88;48].
-    (* "- j0+ j1? j2- c0- s0+ i0+ X0": the CBOR file is valid only without the features, so it fails *)
+  = [114;51;32; 106;48;43;32; 106;49;63;32; 106;50;45;32; 99;48;45;32; 115;48;43;32; 105;48;43;32; 88;48].
+    (* "r3 j0+ j1? j2- c0- s0+ i0+ X0" (the root is the fourth rule, after two generic rules and a group): the CBOR file is valid only without the features, so it fails *)
 Proof. vm_compute. reflexivity. Qed.
 
 Example C18_example_ci :
-  render (validate ex_lib (ex_args true)) = [45;32; 106;48;43;32; 106;49;63;32; 88;49].
-    (* "- j0+ j1? X1" *)
+  render (validate ex_lib (ex_args true)) = [114;51;32; 106;48;43;32; 106;49;63;32; 88;49].
+    (* "r3 j0+ j1? X1" *)
 Proof. vm_compute. reflexivity. Qed.
 
 Example C18_example_premises :
   let a := ex_args false in
   let x := (RCsv, 0, ex_src 4 true true) in
-  v_schema a = SOk /\ todo a = firstn 4 (todo a) ++ x :: skipn 5 (todo a)
+  schema_ok (v_schema a) = true /\ todo a = firstn 4 (todo a) ++ x :: skipn 5 (todo a)
   /\ reaches ex_lib a (firstn 4 (todo a)) = true /\ usable x = true /\ expected ex_lib a x = true.
+Proof. vm_compute. repeat split; reflexivity. Qed.
+
+Example C18_example_no_root :
+  schema_ok (SParsed [KType true; KGroup]) = false /\ schema_ok (SParsed []) = false
+  /\ schema_ok (SParsed [KType true; KType false]) = true /\ schema_ok (SParsed [KGroup; KType false]) = true
+  /\ render (validate ex_lib {| v_ci := false; v_schema := SParsed [KType true]; v_feats := None; v_hdr := false;
+                                v_json := [ex_src 0 true true]; v_cbor := []; v_csv := []; v_stdin := None |})
+     = [101;32;88;49].   (* "e X1" *)
 Proof. vm_compute. repeat split; reflexivity. Qed.
 
 Example C18_example_compile :
